@@ -324,6 +324,31 @@ pub fn run(ctx: &mut Ctx) {
                 if i < 1 {
                     ctx.sample("builder-fingerprint", || json!({"bytes": hex(&bytes)}));
                 }
+                // right afterwards, on the same thread, a builder of the same shape (type, id, attribute
+                // types, lengths) with other contents: its FINGERPRINT is the CRC of its own bytes
+                if i % 3 == 1 {
+                    let q = super::c03::twin_of(&p, &mut rng);
+                    if let Some(b2) = build_program(&q) {
+                        let want2 = q.reference_bytes();
+                        let n2 = b2.len();
+                        ctx.count("builder-fingerprints-same-shape-right-after");
+                        if n2 < 28 || n2 != want2.len() || b2[n2 - 8..] != want2[n2 - 8..] {
+                            ctx.violation(
+                                "C09",
+                                "builder-fingerprint-is-rfc-crc",
+                                "MessageBuilder::add_fingerprint",
+                                "same-shape-builder-right-after",
+                                || {
+                                    let mut v = q.to_json();
+                                    v["built_right_before"] = p.to_json();
+                                    v
+                                },
+                                format!("…{}", hex(&want2[want2.len().saturating_sub(8)..])),
+                                format!("…{}", hex(&b2[n2.saturating_sub(8)..])),
+                            );
+                        }
+                    }
+                }
                 // the same program written into a reused (not zeroed) buffer: the appended value must be
                 // the CRC of the bytes actually emitted before it
                 if i % 4 == 0 {
@@ -627,6 +652,10 @@ pub fn replay(ctx: &mut Ctx, w: &Value) -> Result<(), String> {
         Some("program") => {
             let p = Program::from_json(w).ok_or("program")?;
             ctx.eval();
+            // a witness of the "same shape right after" kind: build its predecessor first
+            if let Some(before) = w.get("built_right_before").and_then(Program::from_json) {
+                let _ = build_program(&before);
+            }
             if let Some(bytes) = build_program(&p) {
                 let want = p.reference_bytes();
                 let n = bytes.len();
